@@ -710,6 +710,8 @@ class Interp:
                 return TUPLE(ops) if ops else UNIT
             if ak == "array":
                 return OPAQUE("array")
+            if ak == "closure":
+                return ("closure", rv["closure"], ops)
             if ak == "adt":
                 adt = rv["adt"]
                 if adt == "bigint::Sign":
